@@ -1,6 +1,7 @@
 package c01
 
 import (
+	"crypto/sha256"
 	"fmt"
 
 	"github.com/codenotary/immudb/embedded/store"
@@ -45,6 +46,9 @@ func forgeries(r *vk.Run) error {
 		return err
 	}
 	if err := familyC(r); err != nil {
+		return err
+	}
+	if err := familyD(r); err != nil {
 		return err
 	}
 	return v2SameID(r)
@@ -184,6 +188,64 @@ func familyC(r *vk.Run) error {
 	_, accFake := caseDual(r, pf, 2, 4, x, a4, "forgery/C")
 	if accReal && accFake {
 		r.Finding("forged session C accepted by store.VerifyDualProof: real tx 2 and a forged header with ID 2 stored at tree position 3 (inclusion proof [H12] claimed for position 2) both verify against state 4: ahtree.VerifyInclusion is position-inexact again")
+	}
+	return nil
+}
+
+func nodeOf(a, b dig) dig {
+	var x [65]byte
+	x[0] = 1
+	copy(x[1:], a[:])
+	copy(x[33:], b[:])
+	return sha256.Sum256(x[:])
+}
+func leafOf(a dig) dig {
+	var x [33]byte
+	copy(x[1:], a[:])
+	return sha256.Sum256(x[:])
+}
+
+// Family D: OVER-LONG inclusion proofs against a root that is not the root of a genuine tree of the
+// claimed size. ahtree.VerifyInclusion demands enough terms to reach the right-most path
+// ((i-1)>>len == (j-1)>>len) but accepts any number of further terms, and VerifyLastInclusion checks no
+// length at all: a server builds tx 4 {BlTxID 3, BlRoot R} with
+//     R = node( node(leaf a1, leaf a2), Y ),   Y = node( node(z, leaf X), leaf a3 )
+// (Y sits where the third leaf of a size-3 tree would be, but is itself a subtree holding X = Alh of
+// a forged tx 2). Against the state (4, a4): the real tx 2 verifies with the 2-term proof
+// [leaf a1, Y], the forged tx 2 with the 3-term proof [z, leaf a3, node(leaf a1, leaf a2)]. Ordinary
+// (non-lagging) headers, VerifyDualProof and VerifyDualProofV2 alike.
+func familyD(r *vk.Run) error {
+	h1 := mkHdr(1, sha256.Sum256(nil), 0, dig{}, 1)
+	a1 := h1.Alh()
+	root1 := leafOf(a1)
+	h2 := mkHdr(2, a1, 1, root1, 2)
+	h2f := mkHdr(2, a1, 1, root1, 66)
+	a2, x := h2.Alh(), h2f.Alh()
+	root2 := nodeOf(leafOf(a1), leafOf(a2))
+	h3 := mkHdr(3, a2, 2, root2, 3)
+	a3 := h3.Alh()
+	var z dig
+	z[0] = 0x5a
+	y := nodeOf(nodeOf(z, leafOf(x)), leafOf(a3))
+	R := nodeOf(root2, y)
+	h4 := mkHdr(4, a3, 3, R, 4)
+	a4 := h4.Alh()
+	lin34 := &store.LinearProof{SourceTxID: 3, TargetTxID: 4, Terms: []dig{a3, innerHashOf(h4)}}
+	cons13 := []dig{leafOf(a1), leafOf(a2), y}
+	last := []dig{nodeOf(z, leafOf(x)), root2}
+	real := &store.DualProof{SourceTxHeader: h2, TargetTxHeader: h4, InclusionProof: []dig{leafOf(a1), y},
+		ConsistencyProof: cons13, TargetBlTxAlh: a3, LastInclusionProof: last, LinearProof: lin34}
+	fake := &store.DualProof{SourceTxHeader: h2f, TargetTxHeader: h4, InclusionProof: []dig{z, leafOf(a3), root2},
+		ConsistencyProof: cons13, TargetBlTxAlh: a3, LastInclusionProof: last, LinearProof: lin34}
+	_, accReal := caseDual(r, real, 2, 4, a2, a4, "forgery/D")
+	_, accFake := caseDual(r, fake, 2, 4, x, a4, "forgery/D")
+	if accReal && accFake && a2 != x {
+		r.Finding("forged session D accepted by store.VerifyDualProof: against the state (4, a4) both the real tx 2 (2-term inclusion proof) and a forged tx 2 (over-long 3-term inclusion proof into a subtree standing where leaf 3 should be) verify: ahtree.VerifyInclusion accepts over-long proofs, VerifyLastInclusion checks no length")
+	}
+	_, accReal2 := caseDual2(r, dualToV2(real), 2, 4, a2, a4, "forgery/D")
+	_, accFake2 := caseDual2(r, dualToV2(fake), 2, 4, x, a4, "forgery/D")
+	if accReal2 && accFake2 && a2 != x {
+		r.Finding("forged session D accepted by store.VerifyDualProofV2: against the state (4, a4) both the real tx 2 (2-term inclusion proof) and a forged tx 2 (over-long 3-term inclusion proof) verify: ahtree.VerifyInclusion accepts over-long proofs against a root that is not a genuine tree of the claimed size")
 	}
 	return nil
 }
